@@ -1218,13 +1218,19 @@ func (e *AnimEncoder) AddRawFrame(bitstreamData []byte, duration time.Duration, 
 	if e.closed {
 		return errors.New("animation: encoder is closed")
 	}
-	return e.muxer.AddFrame(bitstreamData, &mux.FrameOptions{
+	err := e.muxer.AddFrame(bitstreamData, &mux.FrameOptions{
 		Duration:    int(duration / time.Millisecond),
 		OffsetX:     offsetX,
 		OffsetY:     offsetY,
 		BlendMode:   mux.BlendMode(blend),
 		DisposeMode: mux.DisposeMode(dispose),
 	})
+	if err == nil {
+		// Count the frame: Close may only fall back to a plain still image
+		// when the animation really consists of a single picture.
+		e.frameCount++
+	}
+	return err
 }
 
 // SetICCProfile sets the ICC color profile for the output file.
